@@ -329,7 +329,8 @@ func targetListing(c *engine.Ctx) {
 					switch {
 					case strings.HasPrefix(o2, "string(elem(§") && strings.HasSuffix(o2, ".ID)"):
 						byGroup = true
-					case o2 == "northbound/gnmi/v2.aetherROCAdmin" || o2 == "os.Getenv(northbound/gnmi/v2.aetherROCAdmin)" || strings.HasPrefix(o2, `"`):
+					case o2 == "northbound/gnmi/v2.aetherROCAdmin" || o2 == "os.Getenv(northbound/gnmi/v2.aetherROCAdmin)" || strings.HasPrefix(o2, "os.LookupEnv(northbound/gnmi/v2.aetherROCAdmin)") || strings.HasPrefix(o2, `"`):
+						// (an override that is defined but empty cannot match: CallerGroups never returns an empty group, C14.2b)
 						byAdmin = true
 					default:
 						other = o2
